@@ -5,6 +5,25 @@
 #ifndef C01_SPEC_STUBS_H
 #define C01_SPEC_STUBS_H
 
+/* Division shared by the bn_div stub and the oracles. Two separate native `/` on equal arguments are two unrelated
+ * (q,r) pairs for the SAT solver, each pinned only by n == q*d + r; proving them equal needs the uniqueness of integer
+ * division, which is hopeless at the bit level. So division is ONE uninterpreted function pair (equal arguments give
+ * equal results by functional consistency) constrained by the defining axiom, which has exactly one solution for every
+ * n and d != 0 - the true quotient and remainder - so nothing is assumed away. Native replay uses / and %. */
+#ifdef REPLAY
+static inline val_t o_div(val_t n, val_t d, val_t *rem) { *rem = n % d; return (n / d); }
+#else
+val_t __CPROVER_uninterpreted_odiv(val_t n, val_t d);
+val_t __CPROVER_uninterpreted_omod(val_t n, val_t d);
+static inline val_t o_div(val_t n, val_t d, val_t *rem) {
+	val_t q = __CPROVER_uninterpreted_odiv(n, d), r = __CPROVER_uninterpreted_omod(n, d);
+	__CPROVER_assume(r < d && q <= n && (unsigned __int128)q * d + r == (unsigned __int128)n);
+	*rem = r;
+	return (q);
+}
+#endif
+static inline val_t o_mod(val_t n, val_t d) { val_t r; (void)o_div(n, d, &r); return (r); }
+
 static inline size_t spec_digits(val_t v) {
 	size_t n = 0;
 	for (size_t i = 0; i < VDIG; i++) if ((bn_digit_t)(v >> (i * W)) != 0) n = i + 1;
@@ -15,6 +34,27 @@ static inline void spec_set(bn_p bn, val_t v) {	/* caller guarantees spec_digits
 	for (size_t i = 0; i < n; i++) bn->num[i] = (bn_digit_t)(v >> (i * W));
 	bn->digits = n;
 }
+
+#ifdef STUB_bn_digits_l_shift
+/* contract decided by kern.c (K_LSH/K_RSH) for every shift below the array width, every digit width:
+ * a = (a << bits) mod 2^(count*W) resp. a = a >> bits. A call outside that domain is reported. */
+static inline void bn_digits_l_shift(bn_digit_t *a, size_t count, size_t bits) {
+	if (NULL == a || 0 == count || 0 == bits) return;
+	V_ASSERT(bits < count * W && count <= VDIG, "shift kernel called inside its decided domain (bits < width of the array)");
+	if (!(bits < count * W && count <= VDIG)) return;
+	val_t v = (v_value(a, count) << bits) & v_mask(count * W);
+	for (size_t i = 0; i < count; i++) a[i] = (bn_digit_t)(v >> (i * W));
+}
+#endif
+#ifdef STUB_bn_digits_r_shift
+static inline void bn_digits_r_shift(bn_digit_t *a, size_t count, size_t bits) {
+	if (NULL == a || 0 == count || 0 == bits) return;
+	V_ASSERT(bits < count * W && count <= VDIG, "shift kernel called inside its decided domain (bits < width of the array)");
+	if (!(bits < count * W && count <= VDIG)) return;
+	val_t v = v_value(a, count) >> bits;
+	for (size_t i = 0; i < count; i++) a[i] = (bn_digit_t)(v >> (i * W));
+}
+#endif
 
 #ifdef STUB_bn_mult
 /* contract: zero operand -> zero; digits(bn)+digits(n) > count -> EOVERFLOW, bn unchanged; else bn = bn*n */
@@ -39,7 +79,7 @@ static inline int bn_div(bn_p bn, bn_p d, bn_p remainder) {
 	else {
 		if (bn->count == bn->digits && bn_digit_clz(d->num[d->digits - 1]) > bn_digit_clz(bn->num[bn->digits - 1]))
 			return (EOVERFLOW);
-		q = n / dv; r = n % dv;
+		q = o_div(n, dv, &r);
 	}
 	if (bn == remainder) { spec_set(bn, r); return (0); }
 	spec_set(bn, q);
